@@ -241,11 +241,13 @@ def check_job(job):
         try:
             io = d2.iopaths(c, getattr(techlib, lib))
             ic = d2.interconnects(c, getattr(techlib, lib))
+            io_again = d2.iopaths(c, getattr(techlib, lib))          # a parsed file can annotate more than once (e.g. both branch-fork settings)
+            ic_again = d2.interconnects(c, getattr(techlib, lib))
         finally:
             sdf.np = old
         X = expected(c, lib, cells, E, I, var)
         bad, neq = None, z3.BoolVal(True)
-        for kind, arr in (('io', io), ('ic', ic)):
+        for kind, arr in (('io', io), ('ic', ic), ('io', io_again), ('ic', ic_again)):
             if arr.shape != (3, len(c.lines), 2, 2): bad = f'{kind} array shape {arr.shape}'; break
             for idx in np.ndindex(arr.shape):
                 want = X.get((kind,) + idx, 0)
@@ -294,14 +296,15 @@ def replay(data):
     try:
         df = sdf.parse(text)
         io = df.iopaths(c, getattr(techlib, lib)); ic = df.interconnects(c, getattr(techlib, lib))
+        io2 = df.iopaths(c, getattr(techlib, lib)); ic2 = df.interconnects(c, getattr(techlib, lib))          # second use of the same parsed file
     except Exception as e:
         return True, f'{type(e).__name__}: {e}'
     X = expected(c, lib, cells, E, I, lambda t: subst.get(t, t / 1000))
-    for kind, arr in (('io', io), ('ic', ic)):
+    for kind, arr in (('io', io), ('ic', ic), ('io (second call)', io2), ('ic (second call)', ic2)):
         for idx in np.ndindex(arr.shape):
-            want = X.get((kind,) + idx, 0)
+            want = X.get((kind[:2],) + idx, 0)
             if abs(float(arr[idx]) - want) > 1e-9:
-                return True, f'{"IOPATH" if kind == "io" else "INTERCONNECT"} array entry [dataset {idx[0]}, line {idx[1]}, in-pol {idx[2]}, out-pol {idx[3]}] = {float(arr[idx])}, file states {want}'
+                return True, f'{"IOPATH" if kind[:2] == "io" else "INTERCONNECT"}{kind[2:]} array entry [dataset {idx[0]}, line {idx[1]}, in-pol {idx[2]}, out-pol {idx[3]}] = {float(arr[idx])}, file states {want}'
     return False, 'ok'
 
 
